@@ -203,11 +203,16 @@ def _evidence(mod, ctx, lean, outcome, known_lines, wall):
         "wall_s": round(wall, 3),
         "violations": 0 if outcome == "ok" else 1,
     }
-    os.makedirs(EVID, exist_ok=True)
-    tmp = os.path.join(EVID, mod.PROPERTY + ".json.tmp")
+    # Runs against a scratch copy of the repository (seeded-change trials: VERIF_REPO) or at an escalated budget on
+    # demand (VERIF_SCALE) must not overwrite the evidence of the registered checks on /repo itself.
+    evid = EVID
+    if os.environ.get("VERIF_REPO") not in (None, "", "/repo") or (os.environ.get("VERIF_SCALE") or "1") != "1":
+        evid = os.path.join(VERIF, "evidence-scratch")
+    os.makedirs(evid, exist_ok=True)
+    tmp = os.path.join(evid, mod.PROPERTY + ".json.tmp")
     with open(tmp, "w") as f:
         json.dump(ev, f, indent=1)
-    os.replace(tmp, os.path.join(EVID, mod.PROPERTY + ".json"))
+    os.replace(tmp, os.path.join(evid, mod.PROPERTY + ".json"))
 
 
 def _library_exception(ctx, exc):
